@@ -578,6 +578,53 @@ def c06(tier, seed, scripts):
                              "nops": len(ops), "kind": kind, "dir": direction,
                              "ops": [o["op"] for o in ops]},
                     "steps": steps})
+    # an abandoned finish: the future is polled once and dropped, finish is called again and - once that
+    # has reported success, i.e. the peer has everything - a reset can no longer take anything back
+    base = len(scripts)
+    k = 0
+    for (role, kind, direction) in layouts[:4]:
+        for ln in (1, 5000, 70000):
+            code = C06_CODES[(k * 5 + 3) % len(C06_CODES)]
+            steps = [step("app", "open_" + kind, tag="s"), step("app2", "accept_" + kind, tag="s", ms=5000), sleep(20),
+                     step("app", "write", tag="s", len=ln, salt=11, ms=5000),
+                     step("app", "finish", tag="s", poll_once=True),
+                     step("app", "finish", tag="s", ms=5000),
+                     step("app", "reset", tag="s", code=v62(code)), sleep(40),
+                     step("app2", "read", tag="s", buf=4096, salt=11, ms=3000)]
+            out.append({"scn": "C06-%05d" % (base + k), "role": role, "peer": "wt",
+                        "meta": {"prop": "C06", "sside": "app", "rside": "app2", "stag": "s", "rtag": "s", "nops": 4,
+                                 "kind": kind, "dir": "fwd", "ops": ["write", "finish", "reset", "read"], "family": "abandoned-finish"},
+                        "steps": steps})
+            k += 1
+    # the connection goes away under a stream that is still open: finish / write / stopped cannot succeed
+    for (role, kind, direction) in layouts[:4]:
+        for later in ("finish", "write", "stopped"):
+            steps = [step("app", "open_" + kind, tag="s"), step("app2", "accept_" + kind, tag="s", ms=5000), sleep(20),
+                     step("app", "write", tag="s", len=300, salt=12, ms=5000), sleep(30),
+                     step("app2", "close", code=v62(C06_BIG[k % len(C06_BIG)]), reason=[103, 111, 110, 101]), sleep(120)]
+            if later == "write":
+                steps.append(step("app", "write", tag="s", len=10, salt=12, ms=3000))
+            else:
+                steps.append(step("app", later, tag="s", ms=3000))
+            out.append({"scn": "C06-%05d" % (base + k), "role": role, "peer": "wt",
+                        "meta": {"prop": "C06", "sside": "app", "rside": "app2", "stag": "s", "rtag": "s", "nops": 3,
+                                 "kind": kind, "dir": "fwd", "ops": ["write", "lose", later], "family": "connection-lost"},
+                        "steps": steps})
+            k += 1
+    # the BiStream adapter as the sending side: shutdown() is its finish
+    for role in ("client", "server"):
+        for ln in (1, 50, 70000):
+            steps = [step("app", "open_bi", tag="s"),
+                     step("app", "spawn", op="bistream", tag="s", len=ln, salt=13, rsalt=14, ms=8000),
+                     step("app2", "accept_bi", tag="s", ms=5000),
+                     step("app2", "read", tag="s", buf=4096, salt=13, ms=3000),
+                     step("app2", "write", tag="s", len=9, salt=14, then_finish=True, ms=5000),
+                     step("app", "await", tag="s", ms=10000)]
+            out.append({"scn": "C06-%05d" % (base + k), "role": role, "peer": "wt",
+                        "meta": {"prop": "C06", "sside": "app", "rside": "app2", "stag": "s", "rtag": "s", "nops": 3,
+                                 "kind": "bi", "dir": "fwd", "ops": ["write", "finish", "read"], "family": "bistream"},
+                        "steps": steps})
+            k += 1
     return out
 
 
